@@ -239,6 +239,10 @@ func decodeBytecodeV2(bc *Bytecode, r *bytes.Buffer) error {
 				continue
 			}
 
+			if int64(sz) > int64(r.Len()) {
+				return errors.New("invalid field #0 size")
+			}
+
 			data := make([]byte, sz)
 			if _, err = io.ReadFull(r, data); err != nil {
 				return err
@@ -312,7 +316,7 @@ func DecodeObject(r io.Reader) (ugo.Object, error) {
 			return nil, err
 		}
 
-		buf := make([]byte, 2+size)
+		buf := make([]byte, 2+int(size))
 		buf[0] = btype
 		buf[1] = size
 		if size > 0 {
@@ -366,16 +370,24 @@ func DecodeObject(r io.Reader) (ugo.Object, error) {
 			return nil, errors.New("negative value")
 		}
 
+		// The payload is read through a growing buffer instead of allocating
+		// the announced size up front, so that memory stays proportional to
+		// the bytes actually present in the input.
 		n := 1 + len(readBytes)
-		buf := make([]byte, n+int(value))
-		buf[0] = btype
-		copy(buf[1:], readBytes)
+		bb := bytes.NewBuffer(make([]byte, 0, n+bytes.MinRead))
+		bb.WriteByte(btype)
+		bb.Write(readBytes)
 
 		if value > 0 {
-			if _, err = io.ReadFull(r, buf[n:]); err != nil {
+			var written int64
+			if written, err = io.CopyN(bb, r, value); err != nil {
+				if err == io.EOF && written > 0 {
+					err = io.ErrUnexpectedEOF
+				}
 				return nil, err
 			}
 		}
+		buf := bb.Bytes()
 
 		switch btype {
 		case binCompiledFunctionV1:
@@ -680,6 +692,10 @@ func (o *String) UnmarshalBinary(data []byte) error {
 		return nil
 	}
 
+	if size > int64(len(data)) {
+		return errors.New("invalid ugo.String data size")
+	}
+
 	ub := 1 + offset + int(size)
 	if len(data) < ub {
 		return errors.New("invalid ugo.String data size")
@@ -720,6 +736,10 @@ func (o *Bytes) UnmarshalBinary(data []byte) error {
 
 	if size <= 0 {
 		return nil
+	}
+
+	if size > int64(len(data)) {
+		return errors.New("invalid ugo.Bytes data size")
 	}
 
 	ub := 1 + offset + int(size)
@@ -780,6 +800,11 @@ func (o *Array) UnmarshalBinary(data []byte) error {
 	if size <= 0 {
 		return nil
 	}
+
+	if size > int64(len(data)) {
+		return errors.New("invalid ugo.Array data size")
+	}
+
 	ub := 1 + offset + int(size)
 	if len(data) < ub {
 		return errors.New("invalid ugo.Array data size")
@@ -792,6 +817,11 @@ func (o *Array) UnmarshalBinary(data []byte) error {
 	length, err := vi.read()
 	if err != nil {
 		return err
+	}
+
+	// every element takes at least one byte
+	if length < 0 || length > int64(rd.Len()) {
+		return errors.New("invalid ugo.Array length")
 	}
 
 	arr := make([]ugo.Object, 0, int(length))
@@ -855,11 +885,16 @@ func (o *Map) UnmarshalBinary(data []byte) error {
 		return nil
 	}
 
-	if len(data) < 1+offset+int(size) {
+	if size > int64(len(data)) {
 		return errors.New("invalid ugo.Map data size")
 	}
 
-	rd := bytes.NewReader(data[1+offset : 1+offset+int(size)])
+	ub := 1 + offset + int(size)
+	if len(data) < ub {
+		return errors.New("invalid ugo.Map data size")
+	}
+
+	rd := bytes.NewReader(data[1+offset : ub])
 	strBuf := bytes.NewBuffer(nil)
 	var vi varintConv
 	vi.reader = rd
@@ -1004,7 +1039,16 @@ func (o *CompiledFunction) UnmarshalBinary(data []byte) error {
 		return nil
 	}
 
-	rd := bytes.NewReader(data[1+offset : 1+offset+int(size)])
+	if size > int64(len(data)) {
+		return errors.New("invalid ugo.CompiledFunction data size")
+	}
+
+	ub := 1 + offset + int(size)
+	if len(data) < ub {
+		return errors.New("invalid ugo.CompiledFunction data size")
+	}
+
+	rd := bytes.NewReader(data[1+offset : ub])
 	var vi varintConv
 	vi.reader = rd
 
@@ -1044,6 +1088,11 @@ func (o *CompiledFunction) UnmarshalBinary(data []byte) error {
 			length, err := vi.read()
 			if err != nil {
 				return err
+			}
+
+			// every key and every value takes at least one byte
+			if length < 0 || length > int64(rd.Len()) {
+				return errors.New("invalid source map length")
 			}
 
 			sz := int(length / 2)
@@ -1214,6 +1263,11 @@ func (sf *SourceFile) UnmarshalBinary(data []byte) error {
 		return err
 	}
 
+	// every line offset takes at least one byte
+	if v < 0 || v > int64(rd.Len()) {
+		return errors.New("invalid number of lines")
+	}
+
 	length := int(v)
 
 	lines := make([]int, length)
@@ -1276,6 +1330,11 @@ func (sfs *SourceFileSet) UnmarshalBinary(data []byte) error {
 		return err
 	}
 
+	// every file takes at least one byte
+	if v < 0 || v > int64(rd.Len()) {
+		return errors.New("invalid number of files")
+	}
+
 	length := int(v)
 	files := make([]*parser.SourceFile, length)
 
@@ -1284,6 +1343,10 @@ func (sfs *SourceFileSet) UnmarshalBinary(data []byte) error {
 		if err != nil {
 			return err
 		}
+		if v < 0 || v > int64(rd.Len()) {
+			return errors.New("invalid source file size")
+		}
+
 		data := make([]byte, v)
 		if _, err = io.ReadFull(rd, data); err != nil {
 			return err
